@@ -181,6 +181,8 @@ def codec_pool(ctx):
             t = [rng.choice(C) for _ in range(rng.randrange(1, 9))]
         pool.append(tuple(t))
     pool += [F.cps(r"\u{48}"), F.cps("H"), F.cps("\\u{5c}u{48}"), (92,), (92, 92), (92, 117), (92, 92, 117), (0, 122)]
+    # a lone surrogate (legal in a Z3 string) next to the text that spells its escape
+    pool += [(0xd800,), F.cps("\\ud800"), F.cps("\\udfff"), (0xdfff,), (0x61, 0xdc80), F.cps("a\\udc80")]
     return pool
 
 
@@ -350,9 +352,23 @@ def run(ctx):
     for name, fn in (("string_to_z3_literal", enc_fn), ("z3_string_to_python", dec_fn)):
         if fn is None:
             ctx.tie_broken("corr:codec.%s" % name, "backend_z3.%s no longer exists; the modelled literal path is gone" % name)
+    kept_consts = []
     for t in pool:
         sur = is_surrogate(t)
         ascii_only = all(0 < c < 128 for c in t)
+        # (0) the constant itself: StringV holds the text it was given (whatever other constants are alive), and its folded
+        # length is the number of code points
+        try:
+            k_ = claripy.StringV(F.to_str(t))
+            kept_consts.append(k_)
+            ctx.count()
+            held = F.cps(k_.args[0])
+            ln = claripy.StrLen(k_)
+            if held != tuple(t) or ln.op != "BVV" or ln.args[0] != len(t):
+                ctx.violation("C03/StringV-constant/holds-another-text", "StringV(%s) holds %s and its folded length is %r" % (show(t), show(held), ln),
+                              {"kind": "constant", "s": list(t)})
+        except claripy.errors.ClaripyError:
+            pass
         # (a) the property, on the real code
         if not sur:
             li = z.literal_in(t)
